@@ -151,6 +151,30 @@ SER_STREAM = {
     ],
 }
 
+FFI_STREAM = {
+    "name": "ffi",
+    "quick": {"cases": 400, "args": ["--maxvars=5", "--maxops=20"]},
+    "thorough": {"cases": 12000, "args": ["--maxvars=7", "--maxops=40"]},
+    "shrink_levels": [
+        {"cases": 800, "args": ["--maxvars=1", "--maxops=5"]},
+        {"cases": 800, "args": ["--maxvars=2", "--maxops=8"]},
+        {"cases": 800, "args": ["--maxvars=3", "--maxops=10"]},
+    ],
+}
+
+CLI_STREAM = {
+    "name": "cli",
+    "quick": {"cases": 300, "args": ["--maxvars=5"]},
+    "thorough": {"cases": 6000, "args": ["--maxvars=6"]},
+    "shrink_levels": [
+        {"cases": 300, "args": ["--maxvars=1"]},
+        {"cases": 300, "args": ["--maxvars=2"]},
+        {"cases": 300, "args": ["--maxvars=3"]},
+    ],
+}
+
+CLI_PREBUILD = [("/repo", ["cargo", "build", "--offline", "--features", "cli", "--bins", "--target-dir", "/verif/.build/cli-target"])]
+
 BDD_RULE = ("operation programs over RobddBuilder (random/linear/reversed orders, AllIteTable or LruIteTable with hooked "
             "capacity 2^0..2^3, hooked unique-table capacity 4..16 so the table grows repeatedly); a case is non-trivial when "
             "at least one result has a node whose child is a node; distinct = distinct program text")
@@ -412,5 +436,40 @@ PROPS = {
                       "for every vtree with distinct leaves, every lawful cache pair, every fuel.",
         "level_note": "Trusted: Lean kernel; allowed axioms; harness+driver. Unique tables modelled (their refinement theorem is C02Table).",
         "explanation": "C04.* theorems; sdd stream: the clauses of well-formedness evaluated on the implementation's results, equality classes vs functions, model == implementation.",
+    },
+    "C18": {
+        "modules": ["RsddModel.Props.C18"],
+        "streams": [FFI_STREAM],
+        "rule": "call sequences over {bdd_true/false, bdd_var, bdd_new_var, bdd_negate, bdd_and, bdd_or, bdd_ite, bdd_compose} on a manager created by "
+                "mk_bdd_manager_default_order, run through the exported C symbols (linked into the harness through extern \"C\" declarations) and "
+                "through the native API; every handle is read back through bdd_is_true/is_false/topvar/low/high; bdd_eq classes, robdd_model_count, "
+                "count_nodes, real / complex / polynomial weighted counts (polynomial weights marshalled from C arrays incl. arrays longer than "
+                "MAX_COEFFS), bdd_to_json; non-trivial = a diagram with a node below a node",
+        "trusted": ["modelled not verified: Box allocation of handles, CString marshalling, the C calling convention (VarLabel and Complex passed by value)"],
+        "assumptions": ["bdd_low/high/topvar are only meaningful on non-constant handles (the code panics / returns the placeholder 0 on constants)"],
+        "level_text": "Kernel-checked: a sequence of exported calls, projected through 'dereference the handle', IS the native builder run of the "
+                      "translated sequence (ffi_step_native, ffi_run_native), hence diagrams built through C denote the specified functions "
+                      "(ffi_refines) and bdd_eq is semantic equality (ffi_eq_iff_sem); topvar/low/high expose the two cofactors of the top variable "
+                      "(ffi_low_high_sem); robdd_model_count is the number of models modulo the counting prime (ffi_model_count); from_c_parts "
+                      "keeps min(len, MAX_COEFFS) coefficients (fromCParts_spec).",
+        "level_note": "Trusted: Lean kernel; allowed axioms; harness+driver. The theorem is thin by design (the wrapper adds nothing); the substance is the three-way run C / native / model.",
+        "explanation": "C18.* theorems; ffi stream: C symbols vs native API vs handle-layer model vs specification.",
+    },
+    "C19": {
+        "modules": ["RsddModel.Props.C19"],
+        "streams": [CLI_STREAM],
+        "prebuild": CLI_PREBUILD,
+        "rule": "the three binaries built from the working tree (feature cli) run on generated files: weighted_model_count on s-expressions over up to 6 "
+                "named variables with weights in halves (non-normalised, incl. zero and a weights-only variable) and an optional configured order; "
+                "bottomup_cnf_to_bdd on DIMACS files with min-fill or FORCE order; bottomup_formula_to_bdd with linear or manual order; non-trivial = "
+                "more than one variable / clause",
+        "trusted": ["modelled not verified: clap argument parsing, file I/O, serde_json/serde_sexpr/dimacs crates, f64 Display (weights are halves so every "
+                    "printed decimal is exact)"],
+        "assumptions": ["single-count mode (no partial assignments), formulas without constants"],
+        "level_text": "Kernel-checked compositions: text -> expression (C17) -> compile (C05) -> smooth and count (C08) gives the brute-force weighted sum "
+                      "of the formula as written in the text, for every order, weight table and commutative semiring (cli_wmc_spec); the formula and "
+                      "CNF converters' node tables denote the input text (cli_formula_to_bdd_spec, cli_cnf_to_bdd_spec).",
+        "level_note": "Trusted: Lean kernel; allowed axioms; harness+driver. As strong as its links (C05, C08, C17); the tools' glue (weights for unnamed variables, default weights, order configuration) is validated by the cli stream.",
+        "explanation": "C19.* theorems; cli stream: printed counts vs brute force from the text, JSON vs truth table of the text, and the composed model reproduces the JSON byte for byte.",
     },
 }
